@@ -19,7 +19,7 @@ import ast
 import os
 
 from lib import core
-from . import lean_str, lean_bool, parse as parse_ast, find_class, find_func
+from . import lean_str, lean_bool, parse as parse_ast, parse_text, find_class, find_func
 
 ERRORS = "einx/_src/frontend/errors.py"
 ERRORS_PUBLIC = "einx/errors.py"
@@ -231,7 +231,7 @@ def assert_sites():
         with open(os.path.join(core.REPO, rel)) as f:
             src = f.read()
         try:
-            tree = ast.parse(src)
+            tree = parse_text(src, rel)
         except SyntaxError:
             out.append({"file": rel, "line": 0, "func": "<unparsable>", "kind": "assert", "text": "?"})
             continue
